@@ -456,5 +456,17 @@ def _sub(ex, fn, args, kw, node):
 
 @builtin('re.findall', 'py.findall')
 def _findall(ex, fn, args, kw, node):
-    r = z3.Const(ex.fresh_name('findall'), z3.SeqSort(z3.StringSort()))
-    return ex.alloc(ListCell(r, 'str'))
+    """findall: an arbitrary list (A-REGEX: contents unconstrained) of strings, or of tuples of
+    strings when the pattern has several groups."""
+    if fn.name.startswith('py.'):
+        cre = fn.self_val.obj
+    else:
+        pat = pattern_of(ex, args[0], node)
+        cre = pat if isinstance(pat, CompiledRe) else compile_re(pat, get_flags(ex, kw.get('flags')))
+    subj = ex.res(args[-1] if fn.name.startswith('py.') else args[1])
+    if not isinstance(subj, VStr):
+        ex.raise_('TypeError', node)
+    ex.used_assumptions.add('A-REGEX: re.findall returns an unconstrained list of matches (shape only)')
+    kind = 'str' if cre.ngroups <= 1 else ('tuple',) + ('str',) * cre.ngroups
+    r = z3.Const(ex.fresh_name('findall'), z3.SeqSort(kind_sort(kind)))
+    return ex.alloc(ListCell(r, kind))
